@@ -98,7 +98,9 @@ pub fn forward_ref<S: Sc>(spec: &NetSpec, params: &[T<S>], input: &T<S>) -> Opti
         let act = match l {
             LSpec::Dense { act, .. } | LSpec::Conv { act, .. } => *act,
         };
-        if act == Act::Relu && pre.v.iter().any(|v| v.val() == 0.0) {
+        // on (or within rounding distance of) the kink the sub-gradient choice is not determined
+        let eps = 10.0 * tau() * pre.max_abs().max(1.0);
+        if act == Act::Relu && pre.v.iter().any(|v| v.val().abs() <= eps) {
             kink = true;
         }
         x = out;
